@@ -180,7 +180,12 @@ def validate_translation(tr: Traced, O, hints: Hints, npoints=2, rtol=1e-7, stub
             vals = tm.evaluate(terms, env)
         except (ZeroDivisionError, ValueError, OverflowError):
             continue
-        real = tr.call_real(leaves, stubbed=tr.use_stubs)
+        try:
+            real = tr.call_real(leaves, stubbed=tr.use_stubs)
+        except (jax.errors.UnexpectedTracerError, jax.errors.TracerArrayConversionError, jax.errors.ConcretizationTypeError) as ex:
+            # a concrete run cannot meet a tracer unless the code under test kept one from the earlier (traced) call
+            raise RealCodeRaised("the code keeps a value of an earlier traced call in module-level state (second call fails): "
+                                 + f"{type(ex).__name__}: {str(ex).splitlines()[0][:160]}")
         _, rl = tr.concretize_out(real)
         rflat = np.concatenate([np.asarray(r, dtype=np.float64).ravel() for r in rl]) if rl else np.zeros(0)
         sflat = np.array([float(v) for v in vals], dtype=np.float64)
@@ -225,6 +230,10 @@ class Recorder:
         property covers); tracing-only failures are reported by the caller's policy (trace_only)."""
         if self.replay is not None and self.replay.get("goal") == "real code raises" :
             if self.replay.get("prog") != prog: return None
+            if "module-level state" in (self.replay.get("note") or ""):
+                # the recorded failure needs the history: one traced call, then a concrete one
+                try: Traced(f, args, **kw)
+                except Exception: pass
             try:
                 if kw.get("use_stubs"): stubs.install()
                 try: out = f(*args)
@@ -321,7 +330,12 @@ class Recorder:
             for k, v in tr.prims().items(): self.prims[k] = self.prims.get(k, 0) + v
             ctxA = list(it.ctx.assume)
             if validate:
-                self.validation.append(dict(prog=prog, **validate_translation(tr, O, hints)))
+                try:
+                    self.validation.append(dict(prog=prog, **validate_translation(tr, O, hints)))
+                except RealCodeRaised as ex:
+                    self.records.append(dict(prog=prog, goal="a second (concrete) call after the traced one runs", verdict="sat", phase="trace", ms=0.0))
+                    self._record_violation((key_fn(prog, "state-kept-between-calls") if key_fn else prog + ":state-kept-between-calls"), prog, "real code raises", {}, note=str(ex))
+                    return
             A = list(assume) + ctxA + (extra_assume_fn(tr.A, O) if extra_assume_fn else [])
             dec = self.decider(A, hint_spec)
             goals = list(goal_fn(tr.A, O))
